@@ -11,6 +11,7 @@
 From Coq Require Import List String ZArith NArith Bool Lia.
 From PintV Require Import Common.Bytes Model.CommentsReconcile Model.Platforms.
 From PintV Require Import Proofs.C17_reconcile Proofs.C17_grouping Proofs.C17_platforms.
+From PintV Require Import Model.PlatformBitbucket Proofs.C17_bitbucket.
 Import ListNotations.
 
 Section Generic.
@@ -306,6 +307,58 @@ Proof.
   intros k. split; [apply H|]. rewrite H. vm_compute. reflexivity.
 Qed.
 Print Assumptions C17_counting_skips_starves_refuted.
+
+(* ---- BitBucket ------------------------------------------------------------------------------------ *)
+
+(** BitBucket has its own reconciliation (bitbucket_api.go: limitComments, pruneComments, addComments; not a Commenter).
+    Under the echo assumption and with no comment anchored to a COMMIT diff in pint's view: after a run every pending
+    comment (after the limit) has an equal comment; nothing equal to an existing comment is posted; exactly the
+    comments equal to no pending one are pruned (deleted / resolved) and the others stay; and repeating the run with the
+    same pending list prunes nothing, posts nothing and leaves the view unchanged. *)
+Theorem C17_bitbucket_reconcile : forall id id' ex pend,
+  no_commit ex -> (forall p, In p pend -> String.eqb (ba_diff_type (bp_anchor p)) "COMMIT" = false) ->
+  (forall p, In p pend -> exists e, In e (bb_run id ex pend) /\ bb_equal e p = true) /\
+  (forall p, In p (bb_add ex pend) -> In p pend /\ forall e, In e ex -> bb_equal e p = false) /\
+  (forall e, In e ex ->
+     (bb_keep pend e = false -> In (be_id e) (map fst (bb_prune ex pend)) /\ ~ In e (filter (bb_keep pend) ex)) /\
+     (bb_keep pend e = true -> In e (bb_run id ex pend))) /\
+  (let ex' := bb_run id ex pend in bb_prune ex' pend = [] /\ bb_add ex' pend = [] /\ bb_run id' ex' pend = ex').
+Proof.
+  intros id id' ex pend NC NP. split; [intros p Hp; now apply bb_covered|].
+  split; [intros p Hp; now apply bb_no_duplicate|]. split; [intros e He; now apply bb_stale|].
+  now apply bb_idempotent.
+Qed.
+Print Assumptions C17_bitbucket_reconcile.
+
+Definition bb_p (line : Z) (text : string) : bb_pending :=
+  {| bp_anchor := {| ba_path := "a.yml"; ba_line := line; ba_line_type := "ADDED"; ba_diff_type := "EFFECTIVE" |};
+     bp_file_type := "TO"; bp_text := text; bp_severity := "NORMAL" |}.
+
+(** Two places where BitBucket's code does NOT have C17's shape (observations; bitbucket_api.go is outside the property's
+    anchors): (1) limitComments is a hard cap - with maxComments = 1 the second of three problems never gets a comment,
+    whatever is already there and however often the run is repeated (nothing "waits for a later run"); (2) addComments
+    resets its flag on any comment anchored to a COMMIT diff: with such a comment after the equal one in pint's view a
+    comment equal to an existing one is posted again (two equal comments afterwards). *)
+Theorem C17_bitbucket_deviations_refuted :
+  (let lim := bb_limit 1 "too many" [bb_p 1 "one"; bb_p 2 "two"; bb_p 3 "three"] in
+   List.length lim = 2%nat /\
+   forall id ex, (forall e, In e ex -> bb_equal e (bb_p 2 "two") = false) ->
+                 forall e, In e (bb_run id ex lim) -> bb_equal e (bb_p 2 "two") = false) /\
+  (let p := bb_p 1 "one" in
+   let commit := {| be_id := 9; be_anchor := {| ba_path := "a.yml"; ba_line := 5; ba_line_type := "CONTEXT"; ba_diff_type := "COMMIT" |};
+                    be_text := "on a commit"; be_severity := "NORMAL"; be_replies := 0 |} in
+   let ex := [bb_posted 1 p; commit] in
+   bb_add ex [p] = [p] /\
+   List.length (filter (fun e => bb_equal e p) (bb_run 2 ex [p])) = 2%nat).
+Proof.
+  split.
+  - cbn zeta. split; [reflexivity|]. intros id ex H e He. unfold bb_run in He. apply in_app_or in He. destruct He as [He|He].
+    + apply filter_In in He. apply H. tauto.
+    + apply number_from_in in He. destruct He as (i & p & Hp & ->). unfold bb_add in Hp. apply filter_In in Hp. destruct Hp as [Hp _].
+      vm_compute in Hp. destruct Hp as [<-|[<-|[]]]; reflexivity.
+  - vm_compute. repeat split.
+Qed.
+Print Assumptions C17_bitbucket_deviations_refuted.
 
 (** Non-vacuity: a concrete GitLab run with budget 1 over two problems, a stale and a foreign-looking comment:
     run 1 creates one and deletes the stale one, run 2 creates the other, run 3 does nothing. *)
